@@ -292,6 +292,8 @@ def run_parent(args):
             pass
         shutil.rmtree(workdir, ignore_errors=True)
 
+    if not os.environ.get("HV_REPLAY_DIR"):
+        shutil.rmtree(os.path.join(env.HV_ROOT, "replays", args.prop), ignore_errors=True)   # stale witnesses
     merged = merge(results)
     merged["inconclusive"].extend(inconclusive)
     # must-reach counters
